@@ -1,5 +1,313 @@
-"""stub"""
-from ..core.source import AnchorMissing
-PROP="C19"
+"""C19 — C++ and Python outputs describe the same, self-contained model (DESIGN.md §4 C19)."""
+from __future__ import annotations
+
+import ast
+import re
+
+from ..core import guards
+from ..core import pyfacts as pf
+from ..core import sibling
+from ..core.match import txt
+from ..core.source import AnchorMissing, site_packages_file
+from .common import A2G, GOOFIT, MAIN, ckey, enclosing, fn, stmt_of, where
+
+PROP = "C19"
+FILES = [GOOFIT, A2G, MAIN]
+EXPLANATION = (
+    "C19.1 single sink: in a converter that binds `printer`, every piece of output goes through it (no other call of the "
+    "builtin print), so the returned string is what would be printed; C19.2 coefficient names: in both generators and in "
+    "every arm of the fixed/free choice the real coefficient is named …_r and the imaginary one …_i; C19.3 both converters "
+    "emit intro, then parameters, then the per-amplitude loop; C19.4 generated symbol names are formed the same way where "
+    "they are declared (make_intro / make_pars) and where they are used (make_lineshape): <programmatic name>_M/_W, "
+    "programmatic_name(x)_SplineArr, f_scatt, IS_poles; C19.5 the two converters and the two make_intro / make_pars / "
+    "make_amplitude agree in control skeleton and data holes; C19.6 third-party arity: every call of a function imported "
+    "from the installed `particle` package binds against its current signature; C19.7 every generator kind of the command-"
+    "line switch has a branch.")
+NOT_DECIDED = ["that the Python output runs against the GooFit API or is valid Python for every input: not applicable (generated code is not executed)",
+               "equality of the two outputs as model descriptions"]
+CH = ("GooFitChain", "GooFitPyChain")
+CONV = ("ampgen2goofit", "ampgen2goofitpy")
+
+
 def run(ctx, ss):
-    raise AnchorMissing("rules not built yet")
+    for r, f in (("C19.1", c19_1), ("C19.2", c19_2), ("C19.3", c19_3), ("C19.4", c19_4), ("C19.5", c19_5), ("C19.6", c19_6), ("C19.7", c19_7)):
+        ctx.guard(r, f, ss)
+
+
+def _bare_prints(fnode):
+    """Calls of the builtin print that are not the binding of `printer` itself."""
+    out = []
+    for c in pf.calls_in(fnode):
+        if isinstance(c.func, ast.Name) and c.func.id == "print":
+            out.append(c)
+    return out
+
+
+def c19_1(ctx, ss):
+    n = 0
+    for q in CONV:
+        ff, flow = fn(ss, A2G, q)
+        binds = [d for d in flow.defs if d.name == "printer"]
+        if not binds:
+            raise AnchorMissing(f"{q}: no `printer` binding")
+        n += 1
+        bare = _bare_prints(ff.node)
+        k = f"{A2G}:{q} :: bare-print"
+        if bare:
+            ctx.violation("C19.1", k, where(ff, bare[0]),
+                          f"{q} writes {len(bare)} piece(s) with the bare print() instead of the printer (first: `{txt(bare[0])[:60]}`): with ret_output=True they leak "
+                          "to stdout and are missing from the returned text")
+        else:
+            ctx.holds("C19.1", k, where(ff, ff.node), f"{q}: all output goes through `printer`", len(pf.calls_in(ff.node)))
+        # the two bindings: partial(print, file=output) under ret_output, print otherwise; the returned text is the buffer
+        texts = sorted(txt(d.value) for d in binds if d.value is not None)
+        okb = texts == ["partial(print, file=output)", "print"]
+        rets = [r for r in pf.walk_no_nested(ff.node) if isinstance(r, ast.Return) and r.value is not None and not (isinstance(r.value, ast.Constant))]
+        okr = len(rets) == 1 and txt(rets[0].value) == "output.getvalue()"
+        (ctx.holds if okb and okr else ctx.violation)("C19.1", f"{A2G}:{q} :: sink", where(ff, ff.node),
+                                                      f"{q}: printer is print or print-to-buffer; the buffer is what is returned" if okb and okr
+                                                      else f"{q}: printer bindings {texts}, returns {[txt(r.value) for r in rets]}")
+    # embedded positive example (expected count on the tree is zero)
+    ex = ast.parse("def conv(ret_output=False):\n    printer = print\n    printer('a')\n    print('b')\n").body[0]
+    fired = len(_bare_prints(ex)) == 1
+    (ctx.holds if fired else ctx.undecided)("C19.1", "embedded-example", "-", "embedded bare-print example is detected" if fired else "embedded example not detected")
+    ctx.count("converters", n)
+
+
+def _coeff_names(fnode):
+    """[(component, suffix, arm text)] for every generated coefficient declaration."""
+    out = []
+    for js in [x for x in pf.walk_no_nested(fnode) if isinstance(x, ast.JoinedStr)]:
+        text = "".join(str(p.value) if isinstance(p, ast.Constant) else "{" + txt(p.value) + "}" for p in js.values)
+        for line in text.split("\n"):
+            comp = "real" if "{self.amp.real}" in line else "imag" if "{self.amp.imag}" in line else None
+            if comp is None:
+                continue
+            m = re.search(r'\{(\w+)\}(_[A-Za-z]+)"', line)
+            out.append((comp, m.group(2) if m else None, line.strip()[:50], js, m.group(1) if m else None))
+    return out
+
+
+def c19_2(ctx, ss):
+    for cls_ in CH:
+        ff, flow = fn(ss, GOOFIT, f"{cls_}.make_amplitude")
+        names = _coeff_names(ff.node)
+        k = f"{GOOFIT}:{cls_}.make_amplitude :: coefficient-names"
+        if len(names) < 2:
+            raise AnchorMissing(f"{cls_}.make_amplitude: coefficient declarations not found")
+        bad = [(c, s, t, js) for c, s, t, js, b in names if s != {"real": "_r", "imag": "_i"}[c]]
+        if bad:
+            c, s, t, js = bad[0]
+            ctx.violation("C19.2", k, where(ff, js), f"{cls_}: the {c} coefficient is named `…{s}` in `{t}…` (expected {'_r' if c == 'real' else '_i'}): "
+                          "real and imaginary coefficient of an amplitude get the same name")
+        else:
+            ctx.holds("C19.2", k, where(ff, ff.node), f"{cls_}: {len(names)} coefficient declarations, real → _r, imaginary → _i in every arm", len(names))
+        # the name is built from the amplitude's own string in every arm
+        bases = {b for c, s, t, js, b in names}
+        (ctx.holds if bases == {"self"} else ctx.violation)("C19.2", k + " :: base", where(ff, ff.node),
+                                                              "coefficient names start with str(amplitude)" if bases == {"self!s"} else f"coefficient names are built from {sorted(bases)}")
+    # fixedness: C++ passes the flag, Python chooses the arm by self.fix
+    ff, flow = fn(ss, GOOFIT, "GooFitPyChain.make_amplitude")
+    ifx = [x for x in pf.walk_no_nested(ff.node) if isinstance(x, ast.IfExp)]
+    ok = len(ifx) == 2 and all(txt(x.test) == "self.fix" and "self.err" not in txt(x.body) and "self.err" in txt(x.orelse) for x in ifx)
+    (ctx.holds if ok else ctx.violation)("C19.2", f"{GOOFIT}:GooFitPyChain.make_amplitude :: fixedness", where(ff, ff.node),
+                                          "Python: fixed ⇒ value only, free ⇒ value, error and limits — chosen by self.fix for both coefficients" if ok
+                                          else "Python: the fixed/free arms are not chosen by self.fix for both coefficients")
+    ff, flow = fn(ss, GOOFIT, "GooFitChain.make_amplitude")
+    d = [d for d in flow.defs if d.name == "fix" and d.kind == "assign"]
+    ok = len(d) == 1 and txt(d[0].value) == "'true' if self.fix else 'false'"
+    (ctx.holds if ok else ctx.violation)("C19.2", f"{GOOFIT}:GooFitChain.make_amplitude :: fixedness", where(ff, ff.node),
+                                          "C++: the fixed flag is 'true' iff self.fix" if ok else "C++: the fixed flag is not 'true' iff self.fix")
+
+
+def c19_3(ctx, ss):
+    for q, cls_ in zip(CONV, CH):
+        ff, flow = fn(ss, A2G, q)
+        cfg = flow.cfg
+        calls = pf.calls_in(ff.node)
+        intro = [c for c in calls if txt(c.func) == f"{cls_}.make_intro"]
+        pars = [c for c in calls if txt(c.func) == f"{cls_}.make_pars"]
+        lines = [c for c in calls if isinstance(c.func, ast.Attribute) and c.func.attr == "to_goofit"]
+        read = [c for c in calls if txt(c.func) == f"{cls_}.read_ampgen"]
+        k = f"{A2G}:{q} :: order"
+        if not (len(intro) == 1 and len(pars) == 1 and len(lines) == 1 and len(read) == 1):
+            ctx.violation("C19.3", k, where(ff, ff.node), f"{q}: expected one make_intro, make_pars, to_goofit loop and read_ampgen; found {len(intro)}, {len(pars)}, {len(lines)}, {len(read)}")
+            continue
+        n = {x: cfg.node_of(stmt_of(ff, c[0])) for x, c in (("read", read), ("intro", intro), ("pars", pars), ("lines", lines))}
+        ok = cfg.dominates(n["read"], n["intro"]) and cfg.dominates(n["intro"], n["pars"]) and cfg.dominates(n["pars"], n["lines"]) \
+            and not cfg.reachable(n["lines"], n["pars"]) and not cfg.reachable(n["pars"], n["intro"])
+        # each goes through printer
+        via = all(isinstance(stmt_of(ff, c[0]), ast.Expr) and txt(stmt_of(ff, c[0]).value.func) == "printer" for c in (intro, pars, lines))
+        (ctx.holds if ok and via else ctx.violation)("C19.3", k, where(ff, ff.node),
+                                                     f"{q}: read → intro (constants, resonance variables) → parameters → amplitudes, each printed" if ok and via
+                                                     else f"{q}: declarations are not emitted before the lines that use them (order / printing changed)")
+        # arguments
+        lp = enclosing(ff, lines[0], (ast.For,))
+        oka = txt(intro[0].args[0]) == "all_states" and lp and txt(flow.expand(lp[0].iter)).startswith("enumerate(") and txt(lines[0].args[0]) == "all_states[1:]"
+        (ctx.holds if oka else ctx.violation)("C19.3", k + " :: args", where(ff, ff.node),
+                                              f"{q}: intro gets all states; every line is emitted for the daughters all_states[1:]" if oka
+                                              else f"{q}: make_intro / to_goofit do not receive all_states / all_states[1:]")
+
+
+def _suffix_uses(fnode, suffixes):
+    """constants following a formatted hole, e.g. '{par}_M' -> [('par', '_M')]"""
+    out = []
+    for js in [x for x in pf.walk_no_nested(fnode) if isinstance(x, ast.JoinedStr)]:
+        parts = js.values
+        for i, p in enumerate(parts):
+            if isinstance(p, ast.FormattedValue) and i + 1 < len(parts) and isinstance(parts[i + 1], ast.Constant):
+                m = re.match(r"(_[A-Za-z]+)", str(parts[i + 1].value))
+                if m and (m.group(1) in suffixes or any(m.group(1).startswith(s) for s in suffixes)):
+                    out.append((txt(p.value), m.group(1)))
+    return out
+
+
+def c19_4(ctx, ss):
+    for cls_ in CH:
+        ls, lsflow = fn(ss, GOOFIT, f"{cls_}.make_lineshape")
+        mi, miflow = fn(ss, GOOFIT, f"{cls_}.make_intro")
+        mp, mpflow = fn(ss, GOOFIT, f"{cls_}.make_pars")
+        k = f"{GOOFIT}:{cls_} :: symbols"
+        # _M / _W : use = {par}_M with par = self.particle.programmatic_name ; declaration = name + "_M" with name = particle.programmatic_name
+        uses = _suffix_uses(ls.node, ("_M", "_W"))
+        par_defs = [d for d in lsflow.defs if d.name == "par" and d.kind == "assign"]
+        ok_use = bool(uses) and all(b == "par" and sfx in ("_M", "_W") for b, sfx in uses) and {sfx for _, sfx in uses} == {"_M", "_W"} and len(par_defs) == 1 and txt(par_defs[0].value) == "self.particle.programmatic_name"
+        decl = []
+        for c in pf.calls_in(mi.node):
+            for kw in getattr(c, "keywords", []):
+                if kw.arg == "name" and isinstance(kw.value, ast.BinOp) and isinstance(kw.value.right, ast.Constant):
+                    decl.append((miflow.text(kw.value.left), kw.value.right.value))
+        ok_decl = sorted(decl) == sorted([("__elem__(cls.all_particles - set(all_states)).programmatic_name", "_M"), ("__elem__(cls.all_particles - set(all_states)).programmatic_name", "_W")])
+        (ctx.holds if ok_use and ok_decl else ctx.violation)("C19.4", k + " :: mass-width", where(ls, ls.node),
+                                                             f"{cls_}: <particle.programmatic_name>_M / _W declared for every non-final particle seen and used by every line shape" if ok_use and ok_decl
+                                                             else f"{cls_}: resonance variables are declared as {decl} but used as {sorted(set(uses))} (par = {txt(par_defs[0].value) if par_defs else None})")
+        # _SplineArr
+        use_s = [d for d in lsflow.defs if d.kind == "assign" and d.value is not None and "_SplineArr" in txt(d.value)]
+        ok_us = len(use_s) == 1 and txt(use_s[0].value) == "programmatic_name(self.name) + '_SplineArr'"
+        decl_s = [x for x in pf.walk_no_nested(mp.node) if isinstance(x, ast.BinOp) and "_SplineArr" in txt(x) and "programmatic_name(" in txt(x)]
+        ok_ds = any(txt(x).replace('"', "'").find("programmatic_name(spline) + '_SplineArr") >= 0 for x in decl_s)
+        (ctx.holds if ok_us and ok_ds else ctx.violation)("C19.4", k + " :: spline", where(ls, ls.node),
+                                                          f"{cls_}: programmatic_name(<name>)_SplineArr declared in make_pars and used by GSpline line shapes" if ok_us and ok_ds
+                                                          else f"{cls_}: the spline array is declared / used under different names")
+        # f_scatt / IS_poles
+        ls_text = " ".join(str(p.value) for js in pf.walk_no_nested(ls.node) if isinstance(js, ast.JoinedStr) for p in js.values if isinstance(p, ast.Constant))
+        mp_text = " ".join(str(c.value) for c in pf.walk_no_nested(mp.node) if isinstance(c, ast.Constant) and isinstance(c.value, str))
+        for sym in ("f_scatt", "IS_poles"):
+            used = sym in ls_text
+            declared = bool(re.search(rf"\b{sym}\b\s*(=|\{{\{{)", mp_text))
+            (ctx.holds if used and declared else ctx.violation)("C19.4", k + f" :: {sym}", where(mp, mp.node),
+                                                                f"{cls_}: {sym} is declared by make_pars and used by the kMatrix line shape" if used and declared
+                                                                else f"{cls_}: {sym} used={used} declared={declared}")
+        # masses of final states: NAME.upper() declared and listed
+        up = [x for x in pf.walk_no_nested(mi.node) if isinstance(x, ast.Call) and txt(x.func).endswith("programmatic_name.upper")]
+        ok_up = len(up) == 2
+        (ctx.holds if ok_up else ctx.violation)("C19.4", k + " :: final-masses", where(mi, mi.node),
+                                                f"{cls_}: final-state mass constants are declared and listed under the same NAME.upper()" if ok_up
+                                                else f"{cls_}: final-state mass constants are declared / listed under different spellings")
+
+
+REN = {"GooFitPyChain": "<CLS>", "GooFitChain": "<CLS>", "ampgen2goofitpy": "<CONV>", "ampgen2goofit": "<CONV>"}
+
+
+def c19_5(ctx, ss):
+    # converters
+    a, _ = fn(ss, A2G, CONV[0])
+    b, _ = fn(ss, A2G, CONV[1])
+    sa, sb = sibling.skeleton(a.node, REN, skip_literal=True), sibling.skeleton(b.node, REN, skip_literal=True)
+    ha, hb = sibling.holes(a.node, REN), sibling.holes(b.node, REN)
+    k = f"{A2G}:converters :: siblings"
+    dif = sibling.diff(sa, sb)
+    dh = sibling.diff(ha, hb)
+    if not dif and not dh:
+        ctx.holds("C19.5", k, where(b, b.node), f"the two converters have the same control skeleton (up to literal-only print lines) and the same {len(ha)} data holes", len(sa) + len(ha))
+    else:
+        d = (dif or dh)[0]
+        ctx.violation("C19.5", k, where(b, b.node), f"the two converters diverge: C++ `{str(d[0])[:80]}` vs Python `{str(d[1])[:80]}`")
+    from .c18 import c18_5
+    c18_5(ctx, ss, rule="C19.5", methods=["make_intro", "make_pars", "read_ampgen"])
+    # make_amplitude: different syntax, same data (amplitude string, real/imag value and error, count)
+    mf = pf.module_facts(ss, GOOFIT)
+    need = {"{self!s}", "{self.amp.real:.6}", "{self.amp.imag:.6}", "{self.err.real:.6}", "{self.err.imag:.6}", "{n}"}
+    for cls_ in CH:
+        m = mf.classes[cls_].methods["make_amplitude"]
+        hs = set(sibling.holes(m.node, REN))
+        miss = sorted(need - hs)
+        (ctx.holds if not miss else ctx.violation)("C19.5", f"{GOOFIT}:{cls_}.make_amplitude :: data", where(m, m.node),
+                                                    f"{cls_}.make_amplitude emits amplitude name, both values with errors (6 digits) and the permutation count" if not miss
+                                                    else f"{cls_}.make_amplitude no longer emits {miss}")
+
+
+def c19_6(ctx, ss):
+    """Calls of functions imported from the installed `particle` package vs. their current signature."""
+    n = 0
+    for m in pf.all_modules(ss):
+        mf = pf.module_facts(ss, m)
+        for local, (mod, attr) in mf.imports.items():
+            if not mod.startswith("particle") or attr is None:
+                continue
+            path = site_packages_file(mod.replace(".", "/") + ".py") or site_packages_file(mod.replace(".", "/") + "/__init__.py")
+            if path is None:
+                continue
+            try:
+                with open(path, encoding="utf-8") as f:
+                    tree = ast.parse(f.read())
+            except Exception:
+                continue
+            defs = [x for x in tree.body if isinstance(x, ast.FunctionDef) and x.name == attr]
+            if not defs:
+                continue     # a class, a constant or a re-export: not a plain function
+            d = defs[0]
+            a = d.args
+            pos = [x.arg for x in a.posonlyargs + a.args]
+            n_req = len(pos) - len(a.defaults)
+            for q, ff in mf.funcs.items():
+                if ff.parent_func is not None:
+                    continue       # nested helpers and lambdas are scanned with their enclosing function
+                occ: dict = {}
+                for c in sorted(pf.calls_in(ff.node, nested=True), key=lambda c: (c.lineno, c.col_offset)):
+                    if isinstance(c.func, ast.Name) and c.func.id == local:
+                        n += 1
+                        occ[txt(c)] = occ.get(txt(c), 0) + 1
+                        given = len(c.args) + len([kw for kw in c.keywords if kw.arg in pos])
+                        star = any(isinstance(x, ast.Starred) for x in c.args) or any(kw.arg is None for kw in c.keywords)
+                        k = f"{m}:{q} :: {txt(c)[:60]}#{occ[txt(c)]}"
+                        if star:
+                            continue
+                        if given < n_req or (len(c.args) > len(pos) and a.vararg is None):
+                            ctx.violation("C19.6", k, where(ff, c),
+                                          f"`{txt(c)[:60]}` passes {given} argument(s) but the installed {mod}.{attr}({', '.join(pos)}) requires {n_req}: TypeError on every "
+                                          "conversion that reaches this call")
+                        else:
+                            ctx.holds("C19.6", k, where(ff, c), f"`{txt(c)[:50]}` binds against {mod}.{attr}({', '.join(pos)})", 1)
+    ctx.count("third_party_call_sites", n)
+    ctx.floor("C19.6", "calls of imported particle-package functions", n, 8)
+
+
+def c19_7(ctx, ss):
+    mf = pf.module_facts(ss, MAIN)
+    cf = mf.classes.get("DecayLanguageDecay")
+    if cf is None:
+        raise AnchorMissing("class DecayLanguageDecay not found")
+    sw = cf.class_attrs.get("generator")
+    names = []
+    for c in ast.walk(sw) if sw is not None else []:
+        if isinstance(c, ast.Call) and txt(c.func) == "cli.Set":
+            names = [a.value for a in c.args if isinstance(a, ast.Constant)]
+    main = cf.methods.get("main")
+    if not names or main is None:
+        raise AnchorMissing("__main__: generator switch / main not found")
+    tests = {}
+    for n in pf.walk_no_nested(main.node):
+        if isinstance(n, ast.If) and isinstance(n.test, ast.Compare) and txt(n.test.left) == "self.generator" and isinstance(n.test.comparators[0], ast.Constant):
+            calls = [txt(c.func) for c in pf.calls_in(ast.Module(body=n.body, type_ignores=[]))]
+            tests[n.test.comparators[0].value] = calls
+    want = {"goofit": "ampgen2goofit", "goofitpy": "ampgen2goofitpy"}
+    for g in names:
+        k = f"{MAIN}:generator:{g}"
+        if g in tests and want.get(g) in tests[g]:
+            ctx.holds("C19.7", k, where(main, main.node), f"-G {g} runs {want[g]}(filename)", 1)
+        elif g in tests:
+            ctx.violation("C19.7", k, where(main, main.node), f"-G {g} runs {tests[g]}, expected {want.get(g)}")
+        else:
+            ctx.violation("C19.7", k, where(main, main.node), f"the command-line switch accepts -G {g} but main() has no branch for it: nothing is generated")
+    ctx.floor("C19.7", "generator kinds", len(names), 2)
